@@ -11,7 +11,7 @@ BUDGET = {"quick": 36000, "thorough": 6000000}
 WALL_CAP = {"quick": 200, "thorough": 3300}
 CHUNK = 250
 RULE = ("layer (a): command sequences issued at quiescence — every sequence of "
-        "length <= 4 over {initialize,start,step,stop,run_up_to(mid),"
+        "length <= 4 (thorough tier: <= 5) over {initialize,start,step,stop,run_up_to(mid),"
         "run_up_to_including(mid),cleanup,end_replication} on a fixed program "
         "(enumerated, indices below N_EXH) plus seeded random sequences of "
         "length 1-12 with arguments drawn relative to pending event times, "
@@ -48,20 +48,23 @@ FIXED_PROGRAM = {
     "roots": [["rel", 1, 1, 5], ["rel", 3, 2, 5], ["abs", 10.0, 5, 5]],
     "events": {"1": [["rel", 1, 3, 5]], "2": [["rel", 4, 4, 5]], "3": [],
                "4": [["rel", 20, 6, 5]], "5": [], "6": []}}
-EXH_LEN = 4
-_EXH = None
+EXH_LEN = {"quick": 4, "thorough": 5}
+_EXH = {}
 
 
-def exhaustive_sequences():
-    global _EXH
-    if _EXH is None:
-        _EXH = []
-        for n in range(1, EXH_LEN + 1):
-            _EXH.extend(itertools.product(range(len(ALPHA)), repeat=n))
-    return _EXH
+def exhaustive_sequences(tier):
+    if tier not in _EXH:
+        _EXH[tier] = []
+        for n in range(1, EXH_LEN[tier] + 1):
+            _EXH[tier].extend(itertools.product(range(len(ALPHA)), repeat=n))
+    return _EXH[tier]
 
 
-N_EXH = sum(len(ALPHA) ** n for n in range(1, EXH_LEN + 1))
+def n_exh(tier):
+    return sum(len(ALPHA) ** n for n in range(1, EXH_LEN[tier] + 1))
+
+
+N_EXH = n_exh("quick")
 
 
 def init_worker():
@@ -229,8 +232,8 @@ def gen_overlap(rng, seed, tier):
 
 def generate(seed, tier, idx=0):
     rng = common.rng_for(seed, "case")
-    if idx < N_EXH:
-        c = gen_sequential(rng, exhaustive_sequences()[idx])
+    if idx < n_exh(tier):
+        c = gen_sequential(rng, exhaustive_sequences(tier)[idx])
         if c is None:
             return {"skip": True}
         c["enumerated"] = idx
@@ -671,8 +674,8 @@ def extra_evidence(agg, tier):
            "distinct_state_tuples": len(agg.sets.get("state_tuples", ())),
            "exhaustive_sublayer": {
                "what": "all command sequences of length <= %d over %d commands on the fixed program"
-                       % (EXH_LEN, len(ALPHA)),
-               "sequences": N_EXH,
+                       % (EXH_LEN[tier], len(ALPHA)),
+               "sequences": n_exh(tier),
                "executed": agg.counters.get("enumerated_sequences", 0),
                "skipped_because_end_replication_not_generated_in_that_state":
                    agg.counters.get("skipped_enumerated", 0)}}
